@@ -51,12 +51,18 @@ LgammaNearNegInt(f, x, r) == f.M = 23 /\ NearNegInt(f, x, 16) /\ IsFinite(f, r)
 TgammaPoleFlush(f, x, r) == f.M = 23 /\ NearNegInt(f, x, 16) /\ FLe(f, x, Enc(f, 1, Bias(f) + 5, <<0, 0, 6>>)) /\ IsZeroF(f, r)      \* x <= -33.5
 \*  trig-near-zero : double sin/cos/tan at arguments |x| >= 1 where the exact result is below 2^-40 (tan: or above 2^40), i.e. next to
 \*                   a multiple of pi/2: the three-term Cody-Waite reduction keeps an absolute, not a relative, accuracy
-\*                   (observed: 5 ulp for sin/cos, 29 ulp for tan; classified only while the error stays below 128 ulp)
+\*                   (observed: 5 ulp .. 1.8e5 ulp depending on how close x is to the multiple of pi/2; classified by the absolute error bound below)
 EntOf(e, i) == [k |-> e.xk[i + 1], s |-> e.xs[i + 1], e |-> e.xe[i + 1], m |-> Norm(SubSeq(e.xm, 8 * i + 1, 8 * i + 8))]
 TrigNearZero(fn, f, x, r, ent) ==
   /\ fn \in {"sin", "cos", "tan"} /\ f.M = 52 /\ Dec(f, x).ef >= Bias(f) /\ ent.k = 0
   /\ (ent.e <= -40 \/ (fn = "tan" /\ ent.e >= 40))
-  /\ AccOK("erf", f, x, r, ent, 0)                       \* within the 128 ulp that erf<double> is allowed: still a sane value
+  \* the mechanism, not a number of ulps: the reduced argument carries an ABSOLUTE error of at most |x| * 2^-98 (three 33-bit pieces of pi/2),
+  \* which is also the absolute error of a tiny sin/cos/tan; next to a pole of tan the error is that of 1/c: |x| * 2^-98 * tan^2.
+  \* (The closer x is to the multiple of pi/2 the larger the RELATIVE error: cos(-45.553093477052) = -6.1898063659e-19 has 1.8e5 ulp.)
+  /\ LET p == Prec(f)  dr == Dec(f, r)  dx == Dec(f, x) IN
+     /\ dr.cls = "normal" /\ dr.s = ent.s
+     /\ LET diff == AddExactP(100000, dr.s, dr.m, dr.e, 1 - ent.s, ent.m, ent.e - p - 7) IN
+        diff.zero \/ CmpScaled(diff.m, diff.e, dx.m, dx.e - 98 + (IF ent.e >= 40 THEN 2 * ent.e + 2 ELSE 0)) <= 0
 KnownOf(e, bad) ==
   IF e.k \notin {"sv", "mix", "acc"} \/ bad = {} \/ bad = {-1} THEN "-"
   ELSE LET f == Fm(e.t)
